@@ -148,6 +148,30 @@ CURATED = [
     # early return forms from the README
     "def p(a: Qint[2], b: Qint[2]) -> bool:\n\treturn a + b == 3",
     "def p(a: Qlist[Qint[2], 2], b: Qint[2]) -> bool:\n\tc = False\n\tfor x in a:\n\t\tif x == b:\n\t\t\tc = True\n\treturn c",
+    # loops: the loop variable after the loop (bound before as a local / shadowing an argument), comparisons that tie on an unrolled index,
+    # shifts by the index starting at 0, for/else, tuple assignments whose right side reads an earlier target, loop over a matrix row
+    "def p(a: Qint[2]) -> Qint[4]:\n\ti = 0\n\tfor i in range(3):\n\t\ta += 1\n\treturn a + i",
+    "def p(a: Qint[2], i: Qint[2]) -> Qint[4]:\n\tr = a\n\tfor i in range(2):\n\t\tr += 1\n\treturn r + i",
+    "def p(a: Qint[2]) -> Qint[4]:\n\tr = 0\n\tfor i in range(4):\n\t\tif i >= 2:\n\t\t\tr += a\n\treturn r",
+    "def p(a: Qint[2]) -> Qint[4]:\n\tr = 0\n\tfor i in range(4):\n\t\tif i <= 1:\n\t\t\tr += a\n\treturn r",
+    "def p(a: Qint[2]) -> Qint[4]:\n\tr = 0\n\tfor i in range(3):\n\t\tif i > 1:\n\t\t\tr += a\n\t\tif i < 1:\n\t\t\tr += 1\n\treturn r",
+    "def p(a: Qint[2]) -> Qint[6]:\n\ts = 0\n\tfor i in range(3):\n\t\ts = s + (a << i)\n\treturn s",
+    "def p(a: Qint[2]) -> Qint[2]:\n\tr = a\n\tfor i in range(2):\n\t\tr += 1\n\telse:\n\t\tr += 1\n\treturn r",
+    "def p(a: bool, b: bool) -> Tuple[bool, bool]:\n\ta, b = b, a\n\treturn (a, b)",
+    "def p(a: bool, b: bool, c: bool) -> Tuple[bool, bool, bool]:\n\ta, b, c = c, a, b\n\treturn (a, b, c)",
+    "def p(a: bool, b: bool) -> Tuple[bool, bool]:\n\ta, b = b, a ^ b\n\treturn (a, b)",
+    "def p(m: Qmatrix[bool, 2, 3]) -> bool:\n\ts = False\n\tfor x in m[1]:\n\t\ts = s ^ x\n\treturn s",
+    "def p(m: Qmatrix[bool, 2, 3]) -> bool:\n\treturn m[0][2] ^ m[1][0]",
+    "def p(m: Qmatrix[bool, 2, 3], i: Qint[2]) -> bool:\n\treturn m[1][i]",
+    "def p(m: Qmatrix[bool, 3, 2], i: Qint[2], j: Qint[2]) -> bool:\n\treturn m[i][j]",
+    "def p(m: Qmatrix[bool, 2, 3], i: Qint[2], j: Qint[2]) -> bool:\n\treturn m[i][j]",
+    "def p(m: Qmatrix[bool, 3, 2]) -> bool:\n\ts = False\n\tfor x in m[2]:\n\t\ts = s ^ x\n\treturn s",
+    # modulo: literal power of two, literal non-power (outside the subset), variable modulus
+    "def p(a: Qint[4]) -> Qint[4]:\n\treturn a % 4",
+    "def p(a: Qint[4]) -> Qint[4]:\n\treturn a % 3",
+    "def p(a: Qint[4]) -> Qint[4]:\n\treturn a % 6",
+    "def p(a: Qint[3], b: Qint[2]) -> Qint[3]:\n\treturn a % b",
+    "def p(a: Qint[4]) -> Qint[4]:\n\tb = 3\n\treturn a % b",
 ]
 
 OUTSIDE = [
@@ -495,6 +519,19 @@ class L1Monitor:
             setattr(QfixedImp, name, classmethod(w) if isinstance(raw, classmethod) else staticmethod(w))
         for nm in ("add", "sub", "eq", "neq", "gt", "lt", "gte", "lte"):
             wrap_fixed(nm)
+        from qlasskit.types.qint import QintImp
+        raw_mod = QintImp.__dict__["mod"]
+
+        def mod_w(cls, tleft, tright):
+            import sympy
+            try:
+                if not all(isinstance(b, bool) or b in (sympy.true, sympy.false) for b in tright[1]):
+                    mon.hits.append("F-C01-mod-symbolic-modulus")
+            except Exception:  # noqa
+                pass
+            return raw_mod.__func__(cls, tleft, tright)
+        self._saved.append((QintImp, "mod", raw_mod))
+        QintImp.mod = classmethod(mod_w)
         real_te = te.translate_expression
 
         def te_w(expr, env):
